@@ -167,11 +167,41 @@ theorem C14_variants_default_total (fuzzy : Bool) (exts : List Str) (name : Str)
     (variants { fuzzy := fuzzy, exts := exts } name).isSome = true :=
   C14_variants_total _ name
 
-/-- **C14_index_precedence**: an `.index` entry for the name is the only file tried. -/
+/-- **C14_index_precedence**: an `.index` entry for the name is the only file tried - the entry of the last line that
+names the module, as in a dictionary built from the lines in file order. -/
 theorem C14_index_precedence (o : Opts) (index : List (Str × Str)) (name file : Str)
-    (h : index.find? (fun e => e.1 == name) = some (name, file)) :
+    (h : indexLookup index name = some file) :
     fileVariants o index true name = some [(name, file)] := by
   simp [fileVariants, h]
+
+/-- without an entry for the name the index plays no role -/
+theorem C14_index_absent (o : Opts) (index : List (Str × Str)) (name : Str) (h : indexLookup index name = none) :
+    fileVariants o index true name = variants o name := by
+  simp [fileVariants, h]
+
+/-- **C14_index_last_wins**: a later line for the same module replaces an earlier one; lines for other modules change
+nothing. -/
+theorem C14_index_last_wins (index : List (Str × Str)) (name file : Str) :
+    indexLookup (index ++ [(name, file)]) name = some file ∧
+    (∀ other f', other ≠ name → indexLookup (index ++ [(other, f')]) name = indexLookup index name) := by
+  constructor
+  · simp [indexLookup, List.filter_append]
+  · intro other f' hne
+    have : ((other == name) = false) := by simpa using hne
+    simp [indexLookup, List.filter_append, List.filter_cons, this]
+
+/-- **C14_index_short_lines**: a line of `.index` that does not hold two fields (blank, one word) contributes nothing,
+wherever it stands. -/
+theorem C14_index_short_lines (l1 l2 : List (List Str)) (short : List Str) (h : short.length < 2) :
+    loadIndex (l1 ++ short :: l2) = loadIndex (l1 ++ l2) := by
+  have hs : indexLine short = none := by
+    match short, h with
+    | [], _ => rfl
+    | [_], _ => rfl
+  simp [loadIndex, List.filterMap_append, List.filterMap_cons, hs]
+
+example : indexLookup (loadIndex [["IF-MIB".toList, "a.txt".toList], [], ["lone".toList], ["IF-MIB".toList, "b.txt".toList, "x".toList]])
+    "IF-MIB".toList = some "b.txt".toList := by decide
 
 /-! ### directory trees -/
 
@@ -390,6 +420,29 @@ theorem C14_url_kind (path : Str) :
     split <;> simp_all
 
 example : urlKind "gopher".toList "/x".toList = .unsupported := by decide
+
+/-- **C14_url_target**: only the scheme `zip` lets the place of the host name the archive; then the reader is made for
+host part and path taken together, and its kind is decided on that; for every other scheme the host part plays no role
+in the path. -/
+theorem C14_url_target (scheme netloc path : Str) :
+    (scheme ≠ "zip".toList → urlTarget scheme netloc path = (urlKind scheme path, path)) ∧
+    (netloc = [] → urlTarget scheme netloc path = (urlKind scheme path, path)) ∧
+    (scheme = "zip".toList → netloc ≠ [] →
+      urlTarget scheme netloc path = (urlKind "zip".toList (netloc ++ path), netloc ++ path)) := by
+  refine ⟨?_, ?_, ?_⟩
+  · intro h
+    unfold urlTarget urlPath
+    rw [if_neg (fun hh => h hh.1)]
+  · intro h
+    unfold urlTarget urlPath
+    rw [if_neg (fun hh => hh.2 h)]
+  · intro h1 h2
+    unfold urlTarget urlPath
+    rw [if_pos ⟨h1, h2⟩, h1]
+
+/-- the example of the documentation -/
+example : urlTarget "zip".toList "mymibs.zip".toList [] = (.zip, "mymibs.zip".toList) := by decide
+example : urlTarget "file".toList "host".toList "/mibs".toList = (.file, "/mibs".toList) := by decide
 
 /-! ### non-vacuity -/
 example : (variants { exts := [[], ".txt".toList] } "IF-MIB".toList).map (·.map (fun v => String.ofList v.2)) =
